@@ -16,6 +16,7 @@ from collections import Counter
 from unittest import mock
 
 import numpy as np
+from hypothesis import strategies as st
 
 from vf import core
 from vf import ident_rdm as idr
@@ -236,6 +237,8 @@ class Run:
         fam = self.fam
         for k in range(len(fam['members'])):
             obj, model = idr.build_member(fam, k, self.side)
+            if self.case.get('stored_dtype'):
+                obj = self.restore(obj, self.case['stored_dtype'])
             self.add(obj, model, 'constructor')
         for rec in self.case['ops']:
             name = rec['op']
@@ -246,6 +249,18 @@ class Run:
                 continue
             self.kinds.append(name)
         return self
+
+    def restore(self, obj, dtype):
+        """the same object with its vectors stored in another dtype (the constructor keeps the
+        dtype of 2-D vector input: bool / small-int model RDMs, float32 data); the values of
+        such a family are exactly representable in that dtype"""
+        vecs = np.asarray(obj.dissimilarities)
+        cast = vecs.astype(dtype)
+        assert np.array_equal(cast.astype(float), vecs.astype(float), equal_nan=True)
+        d, r, p = idr.deep_descriptors(obj)
+        return self.call('constructor', RDMs, cast,
+                         dissimilarity_measure=obj.dissimilarity_measure,
+                         descriptors=d, rdm_descriptors=r, pattern_descriptors=p)
 
     # -- helpers --------------------------------------------------------------
     def rdm_keys(self, e):
@@ -742,6 +757,8 @@ def _interpret(case):
     if any(v != v for m in fam['members'] for row in m['vals'] for v in row):
         labels.append('values:nan')
     labels += ['form:' + m.get('form', 'vec2d') for m in fam['members']]
+    if case.get('stored_dtype'):
+        labels.append('stored:' + case['stored_dtype'])
     kinds = set(run.kinds)
     labels += ['op:' + k for k in sorted(kinds)]
     labels.append('len:%s' % ('1-3' if len(run.kinds) <= 3 else '4-10' if len(run.kinds) <= 10
@@ -774,6 +791,43 @@ def check_history(case):
     _memo['key'] = None
     if exc is not None:
         raise exc
+
+
+# ---------------------------------------------------------------------------
+# histories over objects whose vectors are stored in a dtype other than float64 / int64
+
+STORED_DTYPES = ('bool', 'bool', 'float32', 'int32', 'uint8')
+
+
+def _fit(v, dtype):
+    """a value exactly representable in dtype, derived from the drawn one"""
+    if dtype == 'float32':
+        return float(np.float32(v))
+    if v != v:
+        return 1.0
+    k = int(round(abs(v) * 4))
+    if k % 4 == 0:
+        k //= 4
+    return float(k % 2) if dtype == 'bool' else float(k % 251)
+
+
+@st.composite
+def dtype_case(draw, max_ops):
+    """a history case whose members store their vectors as bool / float32 / int32 / uint8;
+    the history starts with a subsample_pattern that repeats a condition (the one operation
+    that has to write NaN - pairs of two copies - into an object that did not hold floats)"""
+    case = draw(ops_gen.history_case(max_ops, profile='selecting'))
+    dtype = draw(st.sampled_from(STORED_DTYPES))
+    for m in case['fam']['members']:
+        m['vals'] = [[_fit(v, dtype) for v in row] for row in m['vals']]
+    picks = draw(ops_gen.idx_list)
+    first = dict(op='subsample_pattern', src=draw(st.integers(0, 2)), by=draw(st.integers(0, 3)),
+                 picks=picks + picks[:1], vform=draw(st.sampled_from(['list', 'array', 'tuple'])))
+    at = draw(st.sampled_from([0, 0, 1, 2]))
+    ops = case['ops']
+    case['ops'] = ops[:at] + [first] + ops[at:]
+    case['stored_dtype'] = dtype
+    return case
 
 
 # ---------------------------------------------------------------------------
@@ -913,6 +967,11 @@ SUBCHECKS = [
              doc='long histories (20-50 ops)'),
     Enumeration('sizes', enum_sizes, check_size, classify_size,
                 doc='n_cond recovered from the vector length for every n in 1..2000'),
+    SubCheck('history_stored_dtype', dtype_case(8), check_history, classify_history,
+             quick=200, thorough=2000, max_reject_frac=0.05,
+             doc='histories (<=9 ops, one subsample_pattern with a repeated condition among the '
+                 'first three) over families whose vectors are stored as bool / float32 / int32 / '
+                 'uint8 (values exactly representable); same identity invariant'),
 ] + [
     Enumeration('short_histories_%d' % p, _enum_short(p, _PARTS), check_history, classify_history,
                 doc='all op sequences of length <=2 (quick) / <=3 (thorough) from the fixed menu '
